@@ -233,7 +233,9 @@ def check_function_misc(case):
         if case == 'distinct-arguments':
             f = _make_function('int', True)
             seen = {}
-            for args, kwargs in [((1,), {}), ((1.,), {}), ((True,), {}), ((1,), {'scale': 2}), ((2,), {}), (((1,),), {}), (([1],), {}), (('1',), {}), ((numpy.int64(1),), {})]:
+            for args, kwargs in [((1,), {}), ((1.,), {}), ((True,), {}), ((1,), {'scale': 2}), ((2,), {}), (((1,),), {}), (([1],), {}), (('1',), {}), ((numpy.int64(1),), {}),
+                                 ((numpy.arange(9.).reshape(3, 3),), {}), ((numpy.arange(9.).reshape(3, 3).T,), {}), ((numpy.asfortranarray(numpy.arange(9.).reshape(3, 3)),), {}),
+                                 ((numpy.arange(6.).reshape(2, 3),), {}), ((numpy.arange(6.).reshape(3, 2),), {}), ((numpy.arange(6),), {})]:
                 EXEC['n'] = 0
                 out, _, _ = with_cache(d, None, lambda: f(*args, **kwargs))
                 (_, want), _, _ = with_cache(None, None, lambda: f(*args, **kwargs))
